@@ -58,6 +58,7 @@ type Glue interface {
 	NewParser() Parser
 	MakeToken(name, lit string, off, line, col int) interface{}
 	MutateToken(x interface{})
+	Shapes() map[int][]string        // per act.N label: what each argument must be (see corpus.Shapes)
 	TokMethods(x interface{}) string // calls the token's convenience methods; what they returned, rendered
 	TokInfo(x interface{}) (TokInfo, bool)
 	ErrInfo(x interface{}) (ErrInfo, bool)
@@ -249,7 +250,7 @@ type Outcome struct {
 	Problems []string `json:"problems,omitempty"`
 	Diverged bool     `json:"diverged,omitempty"`
 	Methods  string   `json:"methods,omitempty"` // digest of what the tokens' convenience methods returned, call by call
-	Carries  bool     `json:"-"` // the returned error carries the injected value
+	Carries  bool     `json:"-"`                 // the returned error carries the injected value
 	After    int      `json:"-"`
 	FaultHit bool     `json:"-"`
 	res      interface{}
@@ -337,6 +338,7 @@ func (e *env) runParse(p Parser, lex Lexer, in *Input, f *Fault, sess *act.Sessi
 	}
 	sess.Begin(fc, fk)
 	sess.Render = e.render(sess)
+	sess.Shapes = e.g.Shapes()
 	savedCtx := sess.Ctx
 	if f != nil && f.CtxSwapAt > 0 {
 		sess.SwapAt = f.CtxSwapAt
